@@ -74,7 +74,7 @@ def run(chk):
     chk.extra["smspec_written"] = written
 
     # ---- C10.unsmry
-    r_un = chk.rule("C10.unsmry", "UNSMRY: the writer emits SEQHDR, then MINISTEP and PARAMS (float) per step; the scanner accepts exactly that alternation", floor=4)
+    r_un = chk.rule("C10.unsmry", "UNSMRY: the writer emits SEQHDR, then MINISTEP and PARAMS (float) per step; the scanner accepts exactly that alternation; SEQHDR is written once per report step (strictly later than the last header), after the stream has been prepared for that step", floor=5)
     wus = [f for f in fx.fn("Opm::out::Summary::SummaryImplementation::write") if any(n == "PARAMS" for n, m, t, l in io_calls(f, {"write"}))]
     if len(wus) != 1:
         raise core.AnalysisBroken("SummaryImplementation::write(MiniStep) not found")
@@ -89,6 +89,25 @@ def run(chk):
     chk.instance(r_un, "writer:uncond", sample=[t[:60] for t in tops])
     if len(tops) != 2 or '"MINISTEP"' not in tops[0] or '"PARAMS"' not in tops[1]:
         chk.violation(r_un, "writer:uncond", "MINISTEP and PARAMS must be written unconditionally and in this order for every ministep", wu["file"], wu["l"])
+    # SEQHDR exactly once per report step: written when the ministep's report step is LATER than the last one that got a
+    # header, which is then remembered; the output stream is prepared for that report step first
+    gifs = [s_ for s_ in body if s_["k"] == "If" and '"SEQHDR"' in show(s_["then"])]
+    msp = wu["params"][0]["n"]
+    okh = False
+    det_h = {}
+    if len(gifs) == 1:
+        c_ = strip(gifs[0]["cond"])
+        ctext = show(c_)
+        mem = [x["n"] for x in walk(c_) if x["k"] == "Mem" and strip(x.get("b") or {"k": "This"}).get("k") == "This"]
+        upd = [show(x) for x in stmt_list(gifs[0]["then"]) if x["k"] == "Bin" and x.get("asg")]
+        det_h = dict(cond=ctext, remembered=upd)
+        okh = len(mem) == 1 and ctext in ("(this.%s < %s.seq)" % (mem[0], msp), "(%s.seq > this.%s)" % (msp, mem[0])) and upd == ["(this.%s = %s.seq)" % (mem[0], msp)] and gifs[0].get("else") is None
+    first = show(body[0]) if body else ""
+    det_h["first_statement"] = first[:80]
+    okh = okh and first == "this.createSmryStreamIfNecessary(%s.seq)" % msp
+    chk.instance(r_un, "writer:seqhdr", sample=det_h)
+    if not okh:
+        chk.violation(r_un, "writer:seqhdr", "SummaryImplementation::write(ministep): the stream must be prepared for the ministep's report step first, and SEQHDR written exactly when that report step is later than the last one that got a header (if (prev < ms.seq) { write SEQHDR; prev = ms.seq; }) - found %s: the reader starts a new report step at every SEQHDR" % det_h, wu["file"], wu["l"])
     scan = [f for f in fx.fns if f["file"].endswith("ESmry.cpp") and f.get("body") and '"MINISTEP"' in show(f["body"]) and '"PARAMS"' in show(f["body"]) and '"SEQHDR"' in show(f["body"])]
     chk.instance(r_un, "scanner", sample=[f["q"] for f in scan])
     if not scan:
